@@ -223,6 +223,10 @@ def run(tier, seed, replay=None):
                         amb = True
                     if not m_:
                         stored.append(q_)
+                # ... also afterwards: a point looked up later must not match a vertex that was stored after it either
+                for q_ in pts:
+                    if len([st for st in stored if all(_bounds(kq)[0] <= C.fr(vs) < _bounds(kq)[1] for kq, vs in zip(q_, st))]) > 1:
+                        amb = True
                 if amb:
                     continue
                 vd = VertexDict(rtol=rtol, atol=atol)
